@@ -15,6 +15,13 @@ CONSTS = {
                   SlashToks="NoSlash", Coarse="FALSE", MaxDepth=1, MaxDesc=2),
     "quick_cg": dict(MaxLen=4, AtomToks="AtomsCG", DescToks="DescQ", SymToks="SymsQ", RingToks="RingsQ",
                      SlashToks="NoSlash", Coarse="TRUE", MaxDepth=1, MaxDesc=2),
+    # branch structure: sibling branches, nested branches, descriptors behind closed branches (one atom, one descriptor)
+    "quick_branch": dict(MaxLen=8, AtomToks="AtomsC", DescToks="DescD", SymToks="NoSyms", RingToks="NoRingsF",
+                         SlashToks="NoSlash", Coarse="FALSE", MaxDepth=2, MaxDesc=2),
+    "quick_branch_cg": dict(MaxLen=8, AtomToks="AtomsCG1", DescToks="DescD", SymToks="NoSyms", RingToks="NoRingsF",
+                            SlashToks="NoSlash", Coarse="TRUE", MaxDepth=2, MaxDesc=2),
+    "thorough_branch": dict(MaxLen=10, AtomToks="AtomsC", DescToks="DescD", SymToks="NoSyms", RingToks="NoRingsF",
+                            SlashToks="NoSlash", Coarse="FALSE", MaxDepth=3, MaxDesc=2),
     "thorough": dict(MaxLen=4, AtomToks="AtomsT", DescToks="DescT", SymToks="SymsT", RingToks="RingsT",
                      SlashToks="NoSlash", Coarse="FALSE", MaxDepth=1, MaxDesc=3),
     "thorough_cg": dict(MaxLen=6, AtomToks="AtomsCG", DescToks="DescQ", SymToks="SymsT", RingToks="RingsQ",
@@ -77,7 +84,8 @@ def run_c13(tier):
                   "and coarse) + TLC -simulate strings up to 30 tokens + fragment texts found in /repo; distinct = distinct "
                   "text; non-trivial = at least one descriptor or annotation")
     items = []
-    for key in (["quick", "quick_cg"] if tier == "quick" else ["thorough", "thorough_cg"]):
+    for key in (["quick", "quick_cg", "quick_branch", "quick_branch_cg"] if tier == "quick"
+                else ["thorough", "thorough_cg", "thorough_branch", "quick_branch_cg"]):
         t, r = frag_mc(check, key)
         items += t
     check.exhaustive = True
